@@ -173,6 +173,8 @@ pub enum Kind_ {
     ReadVectored,
     ReadN,
     ReadPool,
+    /// A pool read into a `ReadBuf` the caller already owns (see `World::new_op`).
+    ReadPoolReuse,
     MultishotRead,
     Write,
     WriteStatic,
@@ -237,6 +239,7 @@ pub const ALL_KINDS: &[Kind_] = &[
     Kind_::ReadVectored,
     Kind_::ReadN,
     Kind_::ReadPool,
+    Kind_::ReadPoolReuse,
     Kind_::MultishotRead,
     Kind_::Write,
     Kind_::WriteStatic,
@@ -315,7 +318,7 @@ impl Kind_ {
         }
     }
     pub fn needs_pool(self) -> bool {
-        matches!(self, Kind_::ReadPool | Kind_::MultishotRead | Kind_::RecvPool | Kind_::MultishotRecv)
+        matches!(self, Kind_::ReadPool | Kind_::ReadPoolReuse | Kind_::MultishotRead | Kind_::RecvPool | Kind_::MultishotRecv)
     }
     pub fn needs_direct(self) -> bool {
         matches!(self, Kind_::SocketDirect | Kind_::OpenDirect | Kind_::OpenDirectExtract | Kind_::PipeDirect | Kind_::ToDirect | Kind_::ToFile | Kind_::AcceptDirect | Kind_::MultishotAcceptDirect)
@@ -333,7 +336,7 @@ impl Kind_ {
         use Kind_::*;
         matches!(
             self,
-            Read | ReadAt | ReadVectored | ReadPool | MultishotRead | Write | WriteStatic | WriteArc | WriteExtract | WriteVectored | Send | SendZc
+            Read | ReadAt | ReadVectored | ReadPool | ReadPoolReuse | MultishotRead | Write | WriteStatic | WriteArc | WriteExtract | WriteVectored | Send | SendZc
                 | SendTo | SendToZc | SendVectored | SendVectoredZc | Recv | RecvPool | MultishotRecv | RecvVectored | RecvFrom | Splice
         )
     }
@@ -354,6 +357,20 @@ fn sockaddr_v4(port: u16) -> std::net::SocketAddr {
 }
 
 /// Create an operation of `kind`.
+/// A pool read that appends to a buffer the caller owns already.
+pub fn reuse_read(env: &Env, buf: ReadBuf) -> Box<dyn DynOp> {
+    let before = buf.len();
+    fut_op(env.fd.read(buf), move |r: io::Result<ReadBuf>| match r {
+        Ok(b) => {
+            // The operation's result is what this read appended.
+            let mut o = Outcome::ok(b.len() as i64 - before as i64).with_data(b.as_slice().to_vec());
+            o.rbufs.push(b);
+            o
+        }
+        Err(e) => Outcome::err(&e),
+    })
+}
+
 pub fn make(kind: Kind_, env: &Env, rng: &mut Rng) -> Box<dyn DynOp> {
     use Kind_::*;
     let fd: &'static AsyncFd = env.fd;
@@ -376,7 +393,7 @@ pub fn make(kind: Kind_, env: &Env, rng: &mut Rng) -> Box<dyn DynOp> {
             },
         ),
         ReadN => fut_op(fd.read_n(Vec::with_capacity(BUF_LEN), 24), map_vec(0)),
-        ReadPool => {
+        ReadPool | ReadPoolReuse => {
             let pool = env.pool.as_ref().expect("pool");
             fut_op(fd.read(pool.get()), |r: io::Result<ReadBuf>| match r {
                 Ok(b) => {
